@@ -76,6 +76,79 @@ theorem match_refuses_conflict {α : Type} (src : Vol α) (tgt : Geom) (tol : Ra
       have : (src.geom.cs != tgt.cs) = true := by simpa using hcs
       rw [if_pos this]
 
+/-! ## Clause 2b: when `match_geometry` succeeds (completeness) -/
+
+/-- **Per axis, in full generality.**  Let the target origin sit on voxel `s` of a (permuted) source
+axis with `ni` voxels — `s` any integer: before, inside or beyond the axis —, let the stride be any
+non-zero integer `step` (negative: the target runs the other way) and the target have `no ≥ 1`
+voxels.  Then the crop/pad derivation of `match_geometry` (the translated loop body) does not raise,
+plans non-negative pad widths, and the slice it plans, applied to the padded axis of length
+`ni + before + after`, selects exactly `no` positions starting at padded position `s + before` with
+stride `step` — i.e. the source positions `s + step * j`, `j < no`; each of them lies inside the
+padded axis.  Covers prefix, suffix and interior crops, strided crops, flips, padding on either
+side and any mixture. -/
+theorem match_complete_axis (s : Int) (sp : Rat) (hsp : sp ≠ 0) (step no ni : Int) (hstep : step ≠ 0) (hno : 1 ≤ no)
+    (tol : Rat) (htol : 0 ≤ tol) (rc rp : Bool) :
+    ∃ r, mgCropPad ((s : Rat) * sp) sp step no ni tol rc rp = .ok r ∧
+      0 ≤ (planOf r).before ∧ 0 ≤ (planOf r).after ∧
+      getitemAxis (planOf r).sl (ni + (planOf r).before + (planOf r).after) = .ok (s + (planOf r).before, step, no) ∧
+      ∀ j, 0 ≤ j → j < no →
+        0 ≤ s + (planOf r).before + step * j ∧ s + (planOf r).before + step * j < ni + (planOf r).before + (planOf r).after := by
+  obtain ⟨r, hr, hok⟩ := mgCropPad_axisOK s sp hsp step no ni hstep hno tol htol rc rp
+  exact ⟨r, hr, hok.before_nonneg, hok.after_nonneg, hok.slice, (getitemAxis_range _ _ _ _ _ hok.slice).2.2.2⟩
+
+/-- **`match_complete`, composed over the three axes.**  If the target is a strided sub-lattice of
+the axis-permuted source (`Reachable`: target axis `i` runs along source axis `p i`, forwards or
+backwards, `|st i|` source voxels per target voxel, origin on an integer — possibly out-of-range —
+source voxel), has at least one voxel per axis, lives in the same coordinate system with no
+conflicting frame of reference, and the source is well formed (orthonormal unit vectors, positive
+spacings), then `match_geometry` succeeds for every tolerance `0 < tol ≤ 1`, and the volume it
+returns has *exactly* the target's affine matrix and shape. -/
+theorem match_complete {α : Type} (src : Vol α) (tgt : Geom) (tol : Rat) (c : α)
+    (hwf : WF src.geom) (hshape : ∀ i, 1 ≤ tgt.shape i) (h0 : 0 < tol) (h1 : tol ≤ 1)
+    (hr : Reachable src.geom tgt) :
+    ∃ r, matchGeometry src tgt tol c = .ok r ∧ (∀ i, r.geom.col i = tgt.col i) ∧ r.geom.pos = tgt.pos ∧
+      (∀ i, r.geom.shape i = tgt.shape i) :=
+  matchGeometry_complete src tgt tol c hwf hshape h0 h1 hr
+
+/-- **`match_complete` for chains of operations.**  Every geometry obtained from the source's by a
+finite chain of `permute_spatial_axes`, `pad` and indexing with slices (crop of a prefix, suffix or
+interior, any positive stride, negative strides = flips), in any order and of any length, is matched;
+the target may carry the same frame of reference or none. -/
+theorem match_complete_chain {α : Type} (src : Vol α) (g tgt : Geom) (tol : Rat) (c : α)
+    (hwf : WF src.geom) (hsrc : ∀ i, 1 ≤ src.geom.shape i) (h0 : 0 < tol) (h1 : tol ≤ 1)
+    (hchain : Chain src.geom g)
+    (hsame : tgt.dir = g.dir ∧ tgt.spacing = g.spacing ∧ tgt.pos = g.pos ∧ tgt.shape = g.shape ∧ tgt.cs = g.cs)
+    (hfor : NoForConflict src.geom tgt) :
+    ∃ r, matchGeometry src tgt tol c = .ok r ∧ (∀ i, r.geom.col i = tgt.col i) ∧ r.geom.pos = tgt.pos ∧
+      (∀ i, r.geom.shape i = tgt.shape i) := by
+  obtain ⟨hd, hs, hp, hsh, hc⟩ := hsame
+  obtain ⟨p, first, st, hperm, hst, gd, gs, gp, gcs, _⟩ := hchain.normalForm
+  have hpos := hchain.shape_pos hsrc
+  apply match_complete src tgt tol c hwf (by rw [hsh]; exact hpos) h0 h1
+  refine ⟨p, first, st, hperm, hst, ?_, ?_, ?_, by rw [hc, gcs], (forConflict_false_iff _ _).mpr hfor⟩
+  · rw [hd, gd]; rfl
+  · rw [hs, gs]; rfl
+  · rw [hp, gp]; rfl
+
+/-- Soundness and completeness together: for a reachable target the call returns a volume with the
+target's geometry whose voxels are the source's wherever a source voxel sits at the same position and
+the padding value elsewhere. -/
+theorem match_reachable_spec {α : Type} (src : Vol α) (tgt : Geom) (tol : Rat) (c : α)
+    (hwf : WF src.geom) (hdet : src.geom.aff.det ≠ 0) (hshape : ∀ i, 1 ≤ tgt.shape i) (h0 : 0 < tol) (h1 : tol ≤ 1)
+    (hr : Reachable src.geom tgt) :
+    ∃ r, matchGeometry src tgt tol c = .ok r ∧ (∀ i, r.geom.col i = tgt.col i) ∧ r.geom.pos = tgt.pos ∧
+      ∀ k, InShape tgt.shape k →
+        (∀ i, InShape src.geom.shape i → src.geom.toRef (toRat i) = tgt.toRef (toRat k) → r.vox k = src.vox i) ∧
+        ((∀ i, InShape src.geom.shape i → src.geom.toRef (toRat i) ≠ tgt.toRef (toRat k)) → r.vox k = c) := by
+  obtain ⟨r, hr1, hcol, hpos, hsh⟩ := match_complete src tgt tol c hwf hshape h0 h1 hr
+  have href : ∀ k, r.geom.toRef k = tgt.toRef k := by
+    intro k; simp only [Geom.toRef, hcol, hpos]
+  refine ⟨r, hr1, hcol, hpos, fun k hk => ?_⟩
+  have hk' : InShape r.geom.shape k := fun a => by rw [hsh a]; exact hk a
+  have := (match_sound src tgt tol c r hdet hr1).2 k hk'
+  simpa only [href] using this
+
 /-! ## Clause 3: index mapping between two volumes -/
 
 /-- **The transformer agrees with mapping through physical space.**  Whenever it answers, every
@@ -187,5 +260,76 @@ theorem bounds_empty (fromA toA : Aff) (shape : Ax → Int) (roundOut : Bool) (i
     v2v fromA toA shape roundOut true [] = .ok [] ∧ refToIdx toA shape roundOut true [] = .ok [] := by
   unfold v2v refToIdx
   simp [hinv, boundsFail]
+
+/-! ## Non-vacuity: the hypotheses are satisfiable by concrete non-trivial inputs -/
+
+/-- a 2×3×4 source: axis 0 along x, axis 1 along y (spacing 1/2), axis 2 along z (spacing 2);
+voxel values encode the index -/
+def exSrc : Vol Int :=
+  { geom := { dir := mk3 ⟨1, 0, 0⟩ ⟨0, 1, 0⟩ ⟨0, 0, 1⟩, spacing := mk3 1 (1 / 2) 2, pos := ⟨10, 20, 30⟩,
+              shape := mk3 2 3 4, cs := "PATIENT", frameOfRef := some "1.2.3" },
+    vox := fun k => 100 * k 0 + 10 * k 1 + k 2 }
+
+/-- target: axes (z backwards with stride 2, x, y), 3×4×2 voxels, origin on source voxel (-1, 1, 3):
+permutation + flip + strided crop + prefix crop + padding before and after, no frame of reference -/
+def exTgt : Geom :=
+  { dir := mk3 ⟨0, 0, -1⟩ ⟨1, 0, 0⟩ ⟨0, 1, 0⟩, spacing := mk3 4 1 (1 / 2), pos := ⟨9, 20 + 1 / 2, 36⟩,
+    shape := mk3 3 4 2, cs := "PATIENT", frameOfRef := none }
+
+example : WF exSrc.geom := by
+  refine ⟨fun a b => ?_, fun a => ?_⟩
+  · rcases ax_cases a with rfl | rfl | rfl <;> rcases ax_cases b with rfl | rfl | rfl <;>
+      simp [exSrc, V3.dot]
+  · rcases ax_cases a with rfl | rfl | rfl <;> simp [exSrc]
+
+example : exSrc.geom.aff.det ≠ 0 := by decide +kernel
+
+example : Reachable exSrc.geom exTgt := by
+  refine ⟨mk3 2 0 1, mk3 3 (-1) 1, mk3 (-2) 1 1, by decide, ?_, ?_, ?_, ?_, rfl, rfl⟩
+  · intro i; rcases ax_cases i with rfl | rfl | rfl <;> decide
+  · funext i; rcases ax_cases i with rfl | rfl | rfl <;> simp [exTgt, exSrc, sliceGeom, permuted, V3.neg]
+  · funext i; rcases ax_cases i with rfl | rfl | rfl <;> simp [exTgt, exSrc, sliceGeom, permuted] <;> norm_num
+  · apply V3.ext' <;> simp [exTgt, exSrc, sliceGeom, permuted, Geom.toRef, Geom.col, toRat, V3.add, V3.smul] <;> norm_num
+
+/-- the model run on this pair: matched; voxel (0,1,0) of the result is source voxel (0,1,3), voxel
+(1,2,1) is source voxel (1,2,1), voxels (0,0,0) and (2,1,0) lie outside the source: padding -/
+example : (match matchGeometry exSrc exTgt (1 / 100000) (-7) with
+    | .ok r => r.vox (mk3 0 1 0) == 13 && r.vox (mk3 1 2 1) == 121 && r.vox (mk3 0 0 0) == -7 && r.vox (mk3 2 1 0) == -7
+        && r.geom.shape 0 == 3 && r.geom.shape 1 == 4 && r.geom.shape 2 == 2
+    | .error _ => false) = true := by decide +kernel
+
+/-- the same target shifted by a quarter of a source voxel, scaled by 3/2, or in another frame of
+reference is refused -/
+example : (match matchGeometry exSrc { exTgt with pos := ⟨9 + 1 / 4, 20 + 1 / 2, 36⟩ } (1 / 100000) (-7) with
+    | .ok _ => false
+    | .error e => e == .runtime) = true := by decide +kernel
+example : (match matchGeometry exSrc { exTgt with spacing := mk3 3 1 (1 / 2) } (1 / 100000) (-7) with
+    | .ok _ => false
+    | .error e => e == .runtime) = true := by decide +kernel
+example : (match matchGeometry exSrc { exTgt with frameOfRef := some "9.9" } (1 / 100000) (-7) with
+    | .ok _ => false
+    | .error e => e == .runtime) = true := by decide +kernel
+
+/-- `geometry_equal`: equal to itself, unequal after a shift of 1/1000, equal after a shift of
+1/1000000 (inside `tol + rtol |b|`), unequal for `tol = None` then -/
+example : geometryEqual exTgt exTgt (some (1 / 100000)) = .ok true := by decide +kernel
+example : geometryEqual exTgt { exTgt with pos := ⟨9 + 1 / 1000, 20 + 1 / 2, 36⟩ } (some (1 / 100000)) = .ok false := by
+  decide +kernel
+example : geometryEqual exTgt { exTgt with pos := ⟨9 + 1 / 1000000, 20 + 1 / 2, 36⟩ } (some (1 / 100000)) = .ok true := by
+  decide +kernel
+example : geometryEqual exTgt { exTgt with pos := ⟨9 + 1 / 1000000, 20 + 1 / 2, 36⟩ } none = .ok false := by
+  decide +kernel
+
+/-- transformer between the two geometries: source index (0,1,3) is target index (0,1,0); the
+bounds check passes for it, fails for source index (1,2,0) (target index 3/2 along axis 0 is fine,
+but …) -/
+example : v2v exSrc.geom.aff exTgt.aff exTgt.shape false true [⟨0, 1, 3⟩] = .ok [⟨0, 1, 0⟩] := by decide +kernel
+example : v2v exSrc.geom.aff exTgt.aff exTgt.shape false true [⟨0, 1, 3⟩, ⟨1, 2, -3⟩] = .error .value := by decide +kernel
+/-- a point exactly on the lower face passes, with and without rounding; on the upper face of an
+axis of even length it passes unrounded and fails rounded (the returned index would be `n`) -/
+example : v2v exTgt.aff exTgt.aff exTgt.shape false true [⟨-(1 / 2), 0, 0⟩, ⟨0, 7 / 2, 0⟩] =
+    .ok [⟨-(1 / 2), 0, 0⟩, ⟨0, 7 / 2, 0⟩] := by decide +kernel
+example : v2v exTgt.aff exTgt.aff exTgt.shape true true [⟨-(1 / 2), 0, 0⟩] = .ok [⟨0, 0, 0⟩] := by decide +kernel
+example : v2v exTgt.aff exTgt.aff exTgt.shape true true [⟨0, 7 / 2, 0⟩] = .error .value := by decide +kernel
 
 end HdVerif.C09
